@@ -199,9 +199,10 @@ def isInfix (y x : List Char) : Bool :=
 /-! ### entry-level queries of `VariantPeptideInfo` -/
 
 /-- M: `BaseVariantPeptideIdentifier.is_alternative_splicing`
-(`any(any(y in x for y in alt_splice_types) for x in self.variant_ids)`) -/
+(`any(x.split('-', 1)[0] in alt_splice_types for x in self.variant_ids)` — after the `fix:`
+that replaced the substring test `y in x`) -/
 def Ident.isAltSplicing (d : Ident) : Bool :=
-  d.v1.any fun x => Generated.altSpliceTypes.any fun y => isInfix y x
+  d.v1.any fun x => Generated.altSpliceTypes.contains ((splitOnC '-' x).headD [])
 
 /-- M: `is_splice_altering` -/
 def Ident.isSpliceAltering (d : Ident) : Bool := d.kind == .base && d.isAltSplicing
